@@ -6,7 +6,7 @@ for d in seeded/*/; do
   [ -z "$(git -C /repo status --porcelain)" ] || { echo "/repo not clean"; exit 2; }
   git -C /repo apply /verif/$d/patch.diff || { echo "$name: patch does not apply"; continue; }
   out=$(./check $id --tier quick 2>&1); rc=$?
-  git -C /repo checkout -- .
+  git -C /repo checkout -- .; (cd /verif/harness && CARGO_NET_OFFLINE=true cargo build --release --quiet 2>/dev/null)
   keys=$(echo "$out" | grep -o 'key=[^ ]*' | sort -u | head -5 | tr '\n' ' ')
   echo "$name: check $id exit=$rc $keys"
   python3 - "$d" "$id" "$rc" "$keys" <<'PY'
